@@ -77,6 +77,19 @@ def enumerate_cases(tier, shard=0, nshards=1):
                 sched = [[j % nev, c] for j, c in enumerate(perm)]
                 # evaluate everything twice: idempotence
                 yield {'fixed': mi, 'nev': nev, 'schedule': sched + sched}
+    # long dependency chains: the value of the top cell must not depend on
+    # whether cells further down were evaluated before
+    from vf.checks.c04 import _chain_model
+    for nlen in (66, 130, 200):
+        top, mid, low = ('Sheet1!A%d' % nlen, 'Sheet1!A%d' % (nlen // 2),
+                         'Sheet1!A%d' % max(2, nlen - 129))
+        for sched in ([[0, top]], [[0, mid], [0, top]],
+                      [[0, top], [1, low], [0, top], [1, top]],
+                      [[0, low], [0, mid], [1, top]]):
+            i += 1
+            if i % nshards == shard:
+                yield {'model': _chain_model(nlen), 'nev': 2,
+                       'schedule': sched}
     n = 3000 if tier == 'quick' else 60000
     for k in range(5):
         i += 1
